@@ -23,19 +23,19 @@ import (
 
 // Stream is the fake net.Conn.
 type Stream struct {
-	In         [][]byte // chunks waiting to be read; each Read returns (a prefix of) the head chunk
-	Out        []byte   // everything written
-	Writes     [][]byte // the individual Write calls (datagram boundaries for DTLS-style conns)
-	Closed     bool     // closed locally
-	PeerClosed bool     // peer sent FIN: Read returns io.EOF once In is drained
-	ReadErr    error    // Read fails with this error once In is drained
-	Reads      int      // number of Read calls that returned
-	ReadsAfter int      // Reads counter snapshot helper for oracles
-	WriteErr   error
-	BlockWrites bool // the peer stopped reading and the socket buffers are full: Write blocks until the conn is closed
+	In            [][]byte // chunks waiting to be read; each Read returns (a prefix of) the head chunk
+	Out           []byte   // everything written
+	Writes        [][]byte // the individual Write calls (datagram boundaries for DTLS-style conns)
+	Closed        bool     // closed locally
+	PeerClosed    bool     // peer sent FIN: Read returns io.EOF once In is drained
+	ReadErr       error    // Read fails with this error once In is drained
+	Reads         int      // number of Read calls that returned
+	ReadsAfter    int      // Reads counter snapshot helper for oracles
+	WriteErr      error
+	BlockWrites   bool // the peer stopped reading and the socket buffers are full: Write blocks until the conn is closed
 	WritesBlocked int
-	Handshake  func(ctx context.Context) error // non-nil: the conn has a HandshakeContext (TLS/DTLS path)
-	CloseCalls int
+	Handshake     func(ctx context.Context) error // non-nil: the conn has a HandshakeContext (TLS/DTLS path)
+	CloseCalls    int
 }
 
 type addr string
